@@ -205,9 +205,11 @@ class ScopeMetrics:
         *args: Any,
         exception: BaseException | None = None,
     ) -> None:
+        # message is %-formatted only when there are arguments - prefix must not take part in it
+        prefix: str = self._logger_prefix.replace("%", "%%") if args else self._logger_prefix
         self._logger.log(
             level,
-            f"{self._logger_prefix} {message}",
+            f"{prefix} {message}",
             *args,
             exc_info=exception,
         )
